@@ -90,15 +90,10 @@ func strDump(L *LState) int {
 func strFind(L *LState) int {
 	str := L.CheckString(1)
 	pattern := L.CheckString(2)
-	if len(pattern) == 0 {
-		L.Push(LNumber(1))
-		L.Push(LNumber(0))
-		return 2
-	}
 	init := luaIndex2StringIndex(str, L.OptInt(3, 1), true)
-	plain := false
+	plain := len(pattern) == 0 // the empty pattern matches at init
 	if L.GetTop() == 4 {
-		plain = LVAsBool(L.Get(4))
+		plain = plain || LVAsBool(L.Get(4))
 	}
 
 	if plain {
@@ -358,15 +353,7 @@ func strLower(L *LState) int {
 func strMatch(L *LState) int {
 	str := L.CheckString(1)
 	pattern := L.CheckString(2)
-	offset := L.OptInt(3, 1)
-	l := len(str)
-	if offset < 0 {
-		offset = l + offset + 1
-	}
-	offset--
-	if offset < 0 {
-		offset = 0
-	}
+	offset := luaIndex2StringIndex(str, L.OptInt(3, 1), true)
 
 	mds, err := pm.Find(pattern, unsafeFastStringToReadOnlyBytes(str), offset, 1)
 	if err != nil {
@@ -449,7 +436,7 @@ func luaIndex2StringIndex(str string, i int, start bool) int {
 		i = l + i + 1
 	}
 	i = intMax(0, i)
-	if !start && i > l {
+	if i > l {
 		i = l
 	}
 	return i
